@@ -128,6 +128,7 @@ type dbx struct {
 	refs   map[string]storage.SeriesRef
 	useRef bool
 	thorough bool
+	light    bool
 	// soft reports a violation without failing the transition (known-finding classes for which
 	// the model is tolerant, so that exploration continues behind them).
 	soft func(sig, msg string)
@@ -468,6 +469,10 @@ func (x *dbx) Apply(op string, check bool) (fail *vx.Fail) {
 		}
 	case "mmap":
 		x.db.ForceHeadMMap()
+	case "rotate":
+		if _, err := x.db.Head().wal.NextSegment(); err != nil {
+			return vx.Failf("op-error/rotate", "%v", err)
+		}
 	case "reopen":
 		if err := x.db.Close(); err != nil {
 			x.db = nil
@@ -791,7 +796,9 @@ func (x *dbx) Ops() []string {
 		"rb/s1/F+1/f",
 	)
 	if lvl != "small" {
-		ops = append(ops, "app/s1/F+1/f/s1/F+2/h", "app/s1/F+1/h/s1/F+2/st")
+		ops = append(ops, "app/s1/F+1/f/s1/F+2/h", "app/s1/F+1/h/s1/F+2/st",
+			"app/s1/F+1/h/s1/F+1/f", // histogram and float at the SAME timestamp in one transaction
+		)
 	}
 	dels := [][2]string{{"F-1", "F+1"}, {"min", "max"}, {"B-R", "B-1"}, {"B-R-1", "B-R"}}
 	if lvl == "small" {
